@@ -96,6 +96,7 @@ type b2i struct {
 	known  map[int][2]*big.Int // intervals of particular linear forms (residues)
 	rhos   map[string]*Term
 	abstractMonos bool
+	noInv  bool // lifting the defining hypothesis of an inverse pair: no rewriting
 	factors map[int][]*Term
 	defs   []*Term
 }
@@ -684,7 +685,7 @@ func (x *b2i) liftInt(t *Term) *lin {
 			r = x.quo(a, m)
 			break
 		}
-		if len(x.st.invPairs) > 0 && x.st.invModulus != nil && m.Cmp(x.st.invModulus) == 0 {
+		if !x.noInv && len(x.st.invPairs) > 0 && x.st.invModulus != nil && m.Cmp(x.st.invModulus) == 0 {
 			a = x.reduceInverses(a)
 		}
 		r = x.residue(a, m)
@@ -702,6 +703,16 @@ func (st *Store) liftToInt(hyps []*Term, goal *Term, abstractMonos bool) (nh []*
 		sideK: map[int]bool{}, monos: map[int]*Term{}, aiv: map[int][2]*big.Int{}, bcache: map[int]*Term{}, known: map[int][2]*big.Int{}, rhos: map[string]*Term{}, factors: map[int][]*Term{}, abstractMonos: abstractMonos}
 	x.collectBounds(hyps)
 	for _, h := range hyps {
+		if st.invDefs[h] {
+			// the hypothesis z*w == 1 (mod p) that justifies the rewriting must itself be kept as it is
+			saveC, saveB := x.cache, x.bcache
+			x.cache, x.bcache = map[int]*liftRes{}, map[int]*Term{}
+			x.noInv = true
+			nh = append(nh, x.liftBool(h))
+			x.noInv = false
+			x.cache, x.bcache = saveC, saveB
+			continue
+		}
 		nh = append(nh, x.liftBool(h))
 	}
 	if goal != nil {
